@@ -206,8 +206,8 @@ def parse_item_block(header, body_lines, tmpl_path, first_line):
                 m = re.match(r"(\d+)\s*(?:via\s+" + _STR + r")?\s*$", rest, re.S)
                 spec.fordesugar[int(m.group(1))] = _unq(m.group(2)) if m.group(2) else None
             elif word == "break-value":
-                n, var = rest.split()
-                spec.breakvalue[int(n)] = var
+                m = re.match(r"(\d+)\s+(\S+)\s+" + _STR + r"\s*$", rest)
+                spec.breakvalue[int(m.group(1))] = (m.group(2), _unq(m.group(3)))
             elif word == "debug-assert":
                 m = re.match(r"(\d+)\s*=>\s*(.*)$", rest, re.S)
                 k = int(m.group(1))
@@ -549,16 +549,26 @@ class Splicer:
         self.ins_after(bo, "unimplemented!()", ("tmpl", "trusted-body", 0))
         self._splice_signature()
 
-    def _lower_break_value(self, n, var, kw_idx, bo, bc, loops):
-        # find `break` tokens belonging to this loop: not inside a nested loop (unless labelled with this loop's label), not in closures (ignored)
+    def _lower_break_value(self, n, tyinit, kw_idx, bo, bc, loops):
+        """R3: `let X = loop {.. break V ..};` / `X = loop {..};`  ->  `let mut bv: T = INIT; loop {.. { bv = V; break; } ..}; let X = bv;`
+        (INIT is never observed: the loop is only left through a lowered break or a break of an outer label)"""
+        ty, init = tyinit
+        var = f"verif_bv{n}"
         inner = [(a, b, c) for (a, b, c, _) in loops if a > kw_idx and c < bc]
         sig = self.live_sig(bo + 1, bc)
         origin = self.origin_code(self.toks[kw_idx])
-        # label of this loop
         pre = self.live_sig(0, kw_idx)
-        label = None
-        if len(pre) >= 2 and self.toks[pre[-1]].text == ":" and self.toks[pre[-2]].kind == "lifetime":
-            label = self.toks[pre[-2]].text
+        # statement head: `let X =` or `X =`
+        if len(pre) >= 3 and self.toks[pre[-1]].text == "=" and self.toks[pre[-2]].kind == "ident" and self.toks[pre[-3]].text == "let":
+            target = self.toks[pre[-2]].text
+            self.replace[pre[-3]] = (pre[-1], f"let mut {var}: {ty} = {init};", origin)
+            self.ins_after(bc, f"; let {target} = {var}", ("inline",) + origin[1:])
+        elif len(pre) >= 2 and self.toks[pre[-1]].text == "=" and self.toks[pre[-2]].kind == "ident":
+            target = self.toks[pre[-2]].text
+            self.replace[pre[-2]] = (pre[-1], f"let mut {var}: {ty} = {init};", origin)
+            self.ins_after(bc, f"; {target} = {var}", ("inline",) + origin[1:])
+        else:
+            raise LostAnchor(f"{self.item_id}: loop {n} is not of the form `let X = loop` / `X = loop`")
         cnt = 0
         for pos, k in enumerate(sig):
             t = self.toks[k]
@@ -567,17 +577,13 @@ class Splicer:
             in_inner = any(a < k < c for (a, b, c) in inner)
             nxt = sig[pos + 1]
             nt = self.toks[nxt]
-            has_label = nt.kind == "lifetime"
-            if in_inner and not (has_label and nt.text == label):
+            if nt.kind == "lifetime":
+                continue   # labelled break of an outer loop: carries no value for this loop
+            if in_inner:
                 continue
-            if has_label and nt.text != label:
+            if nt.text in (";", "}", ","):
                 continue
-            vstart = sig[pos + 2] if has_label else nxt
-            if self.toks[vstart].text in (";", "}", ","):
-                continue   # plain break
-            # value extends to the `;` or `,` or `}` at depth 0
-            j = vstart
-            depth = 0
+            j = nxt
             while j < bc:
                 tt = self.toks[j]
                 if tt.kind == "punct" and tt.text in "([{":
@@ -589,9 +595,8 @@ class Splicer:
             vend = j - 1
             while self.toks[vend].kind in TRIVIA:
                 vend -= 1
-            vtext = "".join(self.toks[q].text for q in range(vstart, vend + 1))
-            lab = f" {label}" if has_label else ""
-            self.replace[k] = (vend, f"{{ {var} = {vtext}; break{lab}; }}", origin)
+            vtext = "".join(self.toks[q].text for q in range(nxt, vend + 1))
+            self.replace[k] = (vend, f"{{ {var} = {vtext}; break; }}", origin)
             cnt += 1
         if cnt == 0:
             raise LostAnchor(f"{self.item_id}: loop {n} has no `break <value>`")
